@@ -18,3 +18,8 @@ package parser
 //@   at-call NewParser assert arg1.ErrorHandlerFunc == config.ErrorHandlerFunc
 //@   at-call NewParser assert config.Version != nil ==> arg1.Version == config.Version
 //@   props C09, C06, C01
+
+// Frame of a parse (C01 buffer, C09 read sites, C11 confinement): everything Parse and its call
+// tree write is allocated inside the call; nothing reachable from package-level variables is
+// written; the version is read only where the property allows it to matter.
+//@ frame parse: roots=Parse allow=nothing props=C01,C09,C11 readers=F:internal/scanner.Lexer.phpVersion@internal/scanner.Lexer).isHeredocEnd readers=F:pkg/conf.Config.Version@pkg/parser.Parse;internal/scanner.NewLexer;internal/php5.NewParser;internal/php7.NewParser
